@@ -31,7 +31,10 @@ DocTable == <<
   Arr(<<N1, Obj(<<Mem(ca, Null)>>)>>),                                \* 2
   Obj(<<>>),                                                          \* 3
   Bad,                                                                \* 4  {"a":
-  Obj(<<Mem(cx, Str(<<60>>)), Mem(ca, N1)>>) >>                       \* 5  strings that need HTML escaping
+  Obj(<<Mem(cx, Str(<<60>>)), Mem(ca, N1)>>),                         \* 5  strings that need HTML escaping
+  \* 6, 7: numbers that differ only beyond float64 precision / only in spelling, and one outside the float64 range
+  Obj(<<Mem(ca, N1), Mem(cb, Num(<<49,50,51,52,53,54,55,56,57,48,49,50,51,52,53,54,55,56,57,48,49,50,51>>)), Mem(ce, Num(<<49,101,52,48,48>>))>>),
+  Obj(<<Mem(ca, Num(<<49,46,48>>)), Mem(cb, Num(<<49,50,51,52,53,54,55,56,57,48,49,50,51,52,53,54,55,56,57,48,49,50,52>>)), Mem(ce, Num(<<49,101,52,48,48>>))>>) >>
 \* RFC 6902 patches: operation sequences, or Bad
 P(s) == [ok |-> TRUE, ops |-> s]
 PatchTable == <<
@@ -52,7 +55,12 @@ PatchTable == <<
                                                                                                           \*   in the library the final encoding step fails)
   P(<< [op |-> "add", path |-> <<47,107,126,49,108,126,48,109>>, value |-> N1],
        [op |-> "copy", from |-> <<47,107,126,49,108,126,48,109>>, path |-> <<47,110,126,48,126,49>>],
-       [op |-> "test", path |-> <<47,110,126,48,126,49>>, value |-> N1] >>) >>                           \* 10 tokens that need ~1 / ~0 decoding: /k~1l~0m, /n~0~1
+       [op |-> "test", path |-> <<47,110,126,48,126,49>>, value |-> N1] >>),                          \* 10 tokens that need ~1 / ~0 decoding: /k~1l~0m, /n~0~1
+  P(<< [op |-> "add", path |-> <<47,108>>, value |-> Arr(<<>>)],
+       [op |-> "add", path |-> <<47,108,47,45>>, value |-> Num(<<49,101,52,48,48>>)],
+       [op |-> "add", path |-> <<47,111>>, value |-> Obj(<<Mem(<<110>>, N1)>>)],
+       [op |-> "move", from |-> <<47,111,47,110>>, path |-> <<47,109>>] >>) >>                            \* 11 later operations edit INSIDE values an earlier operation of
+                                                                                                          \*    the same patch inserted: add /l [] ; add /l/- 1e400 ; add /o {"n":1} ; move /o/n -> /m
 \* merge patches
 MergeTable == <<
   Obj(<<Mem(ca, Null), Mem(cc, Obj(<<Mem(cd, N1)>>))>>),              \* 1 {"a":null,"c":{"d":1}}
@@ -71,7 +79,8 @@ SmallCalls ==
      { C3("Apply", d, p, 1) : d \in {1, 2}, p \in {1, 2, 3} }
   \cup { C3("Apply", 1, 2, 2), C3("Apply", 4, 1, 1), C3("ApplyIndent", 1, 5, 1), C3("Apply", 1, 7, 1) }
   \cup { C3("Apply", 1, 2, 3), C3("Apply", 1, 8, 3) }      \* under the limit: a copy that fits; a copy followed by a failing test
-  \cup { C3("Apply", 1, 9, 1), C3("Apply", 1, 10, 1), C3("Apply", 3, 10, 2) }
+  \cup { C3("Apply", 1, 9, 1), C3("Apply", 1, 10, 1), C3("Apply", 3, 10, 2), C3("Apply", 1, 11, 1), C3("Apply", 3, 11, 1) }
+  \cup { C2("CreateMergePatch", 6, 7), C2("CreateMergePatch", 7, 6), C2("Equal", 6, 7) }
   \cup { C2("DecodePatch", 4, 0), C2("DecodePatch", 2, 0) }
   \cup { C2("MergePatch", 1, 1), C2("MergePatch", 1, 4), C2("MergePatch", 3, 2) }
   \cup { C2("MergeMergePatches", 1, 2), C2("CreateMergePatch", 1, 3), C2("CreateMergePatch", 1, 4) }
@@ -79,7 +88,7 @@ SmallCalls ==
 FullCalls == SmallCalls
   \cup { C3("Apply", d, p, o) : d \in {1, 2, 3, 5}, p \in {1, 2, 3, 5, 6}, o \in {1, 2} }
   \cup { C3("ApplyIndent", d, p, 1) : d \in {1, 2, 5}, p \in {1, 2} }
-  \cup { C2("DecodePatch", p, 0) : p \in 1..10 } \cup { C3("Apply", 2, 7, 1), C3("Apply", 5, 7, 2) }
+  \cup { C2("DecodePatch", p, 0) : p \in 1..11 } \cup { C2("MergePatch", 6, 1), C2("MergePatch", 7, 2) } \cup { C3("Apply", 2, 7, 1), C3("Apply", 5, 7, 2) }
   \cup { C2("MergePatch", d, m) : d \in {1, 3, 4, 5}, m \in 1..4 }
   \cup { C2("MergeMergePatches", m, n) : m \in {1, 2}, n \in 1..4 }
   \cup { C2("CreateMergePatch", d, e) : d \in {1, 3, 5, 2}, e \in {1, 3, 5} }
